@@ -45,11 +45,12 @@ type CCall struct {
 // ClientFault is the fault of one run / sub-run.
 type ClientFault struct {
 	Base     uint64 `json:"base"`
-	Kind     string `json:"kind"` // "", eof, ioerr, garbage, stall
+	Kind     string `json:"kind"` // "", eof, ioerr, garbage, stall, flip (one corrupted byte, the stream goes on)
 	At       int64  `json:"at"`
 	JunkSeed int    `json:"junk_seed,omitempty"`
 	StallMs  int    `json:"stall_ms,omitempty"`
-	WriteAt  int64  `json:"write_at"` // client->server write fault offset (-1 = none)
+	Mask     int    `json:"mask,omitempty"` // flip: XOR mask of the corrupted byte
+	WriteAt  int64  `json:"write_at"`       // client->server write fault offset (-1 = none)
 }
 
 // ClientPlan is the pre-drawn part of a C08 run.
@@ -386,6 +387,12 @@ func runClientPlan(t *testing.T, plan *ClientPlan, fault ClientFault, tape *rt.T
 			obs.S2C.SetFault(rt.PipeFault{Kind: rt.FaultIOErr, At: fault.At})
 		case "stall":
 			obs.S2C.SetFault(rt.PipeFault{Kind: rt.FaultStall, At: fault.At, StallFor: time.Duration(fault.StallMs) * time.Millisecond})
+		case "flip":
+			m := byte(fault.Mask)
+			if m == 0 {
+				m = 0x20
+			}
+			obs.S2C.SetFault(rt.PipeFault{Kind: rt.FaultFlip, At: fault.At, Mask: m})
 		case "garbage":
 			junk := make([]byte, 30)
 			x := uint64(fault.JunkSeed)*2654435761 + 99991
@@ -467,6 +474,7 @@ func runClientPlan(t *testing.T, plan *ClientPlan, fault ClientFault, tape *rt.T
 									}
 								}
 							})
+							results[i].Started = true
 							r := client.Execute(in, toStep, fromStep)
 							results[i].Returned++
 							results[i].Res = r
@@ -475,6 +483,7 @@ func runClientPlan(t *testing.T, plan *ClientPlan, fault ClientFault, tape *rt.T
 							side.Wait()
 							rt.Yield(siteHarness)
 						} else {
+							results[i].Started = true
 							r := client.Execute(in, nil, nil)
 							results[i].Returned++
 							results[i].Res = r
@@ -509,6 +518,15 @@ func runClientPlan(t *testing.T, plan *ClientPlan, fault ClientFault, tape *rt.T
 				obs.Delivered = append(append([]byte{}, rec[:fault.At]...), obs.junk...)
 			} else {
 				obs.Delivered = append([]byte{}, rec...)
+			}
+		case "flip":
+			obs.Delivered = append([]byte{}, rec...)
+			if int64(len(obs.Delivered)) > fault.At {
+				m := byte(fault.Mask)
+				if m == 0 {
+					m = 0x20
+				}
+				obs.Delivered[fault.At] ^= m
 			}
 		default:
 			obs.Delivered = append([]byte{}, rec...)
@@ -552,13 +570,45 @@ type serverStreamModel struct {
 	workDone   map[string][]deliveredWD // v3: by run id
 	workDoneV1 []deliveredWD            // v1: in order
 	items      int
+	// terminal[run] counts complete, well-formed envelopes that end a run (work-done or step-fatal error),
+	// whether or not their payload decodes; serverFatal is set by a well-formed server-fatal error
+	terminal    map[string]int
+	serverFatal bool
+	// how decoding of the delivered bytes ended: "eof" (all consumed), "truncated" (an item is incomplete:
+	// a reader would wait for more bytes), "malformed" (a reader gets a decode error)
+	ending   string
+	badItems int // well-formed items that do not decode into the expected message type
 }
 
 func modelServerStream(b []byte) *serverStreamModel {
-	m := &serverStreamModel{workDone: map[string][]deliveredWD{}}
-	dec := strictDec.NewDecoder(bytes.NewReader(b))
+	m := &serverStreamModel{workDone: map[string][]deliveredWD{}, terminal: map[string]int{}, ending: "eof"}
+	dec := cbor.NewDecoder(bytes.NewReader(b))
+	// next consumes one item exactly as any CBOR stream decoder does - an item that is well-formed is
+	// consumed whether or not its content fits what the reader wanted to decode it into - and then tries to
+	// decode it strictly (unknown fields are errors, as in the client) into v. ok reports whether v is usable;
+	// more is false when the stream ended, is truncated inside an item, or stopped being CBOR.
+	next := func(v any) (ok bool, more bool) {
+		var raw cbor.RawMessage
+		if err := dec.Decode(&raw); err != nil {
+			switch err {
+			case io.EOF:
+				m.ending = "eof"
+			case io.ErrUnexpectedEOF:
+				m.ending = "truncated"
+			default:
+				m.ending = "malformed"
+			}
+			return false, false
+		}
+		if err := strictDec.Unmarshal(raw, v); err != nil {
+			m.badItems++
+			return false, true
+		}
+		return true, true
+	}
 	var h refHello
-	if err := dec.Decode(&h); err != nil {
+	ok, more := next(&h)
+	if !more || !ok {
 		return m
 	}
 	m.helloOK = true
@@ -572,8 +622,14 @@ func modelServerStream(b []byte) *serverStreamModel {
 	if h.Version == 1 {
 		for {
 			var wd refWorkDone
-			if err := dec.Decode(&wd); err != nil {
+			ok, more := next(&wd)
+			if !more {
 				return m
+			}
+			if !ok {
+				// consumed, but not a usable result: it takes the place of one answer
+				m.workDoneV1 = append(m.workDoneV1, deliveredWD{"\x00undecodable", nil})
+				continue
 			}
 			n, _ := Norm(wd.OutputData)
 			m.workDoneV1 = append(m.workDoneV1, deliveredWD{wd.OutputID, n})
@@ -582,11 +638,29 @@ func modelServerStream(b []byte) *serverStreamModel {
 	}
 	for {
 		var env refEnvelope
-		if err := dec.Decode(&env); err != nil {
+		ok, more := next(&env)
+		if !more {
 			return m
 		}
+		if !ok {
+			continue
+		}
 		m.items++
+		if env.ID == atp.MessageTypeError {
+			var em struct {
+				StepFatal   bool `cbor:"step_fatal"`
+				ServerFatal bool `cbor:"server_fatal"`
+			}
+			if err := cbor.Unmarshal(env.Data, &em); err == nil {
+				if em.ServerFatal {
+					m.serverFatal = true
+				} else if em.StepFatal {
+					m.terminal[env.RunID]++
+				}
+			}
+		}
 		if env.ID == atp.MessageTypeWorkDone {
+			m.terminal[env.RunID]++
 			var wd refWorkDone
 			if err := cbor.Unmarshal(env.Data, &wd); err == nil {
 				n, _ := Norm(wd.OutputData)
@@ -618,7 +692,27 @@ func JudgeClient(prop string, plan *ClientPlan, fault ClientFault, obs *ClientOb
 				clientStuck = true
 			}
 		}
-		if clientStuck {
+		if clientStuck && fault.Kind == "flip" {
+			// One corrupted byte, after which the stream goes on and then stays open and silent. A caller that
+			// is still blocked is only a violation when that is decidable: every delivered byte forms complete,
+			// well-formed items (the client's decoder is in sync and idle) and a complete terminal envelope for
+			// the caller's run - or a server-fatal error - is among them.
+			model := modelServerStream(obs.Delivered)
+			unjustified := ""
+			if plan.Version != 1 && model.ending == "eof" {
+				for ci, calls := range plan.Callers {
+					for i := range calls {
+						if ci < len(obs.Results) && i < len(obs.Results[ci]) && obs.Results[ci][i].Started && obs.Results[ci][i].Returned == 0 && (model.terminal[calls[i].RunID] > 0 || model.serverFatal) {
+							unjustified = calls[i].RunID
+						}
+					}
+				}
+			}
+			if unjustified == "" {
+				return []Violation{{"EXCLUDED", "premise", "silent-stream-after-corruption", "a caller is blocked, but after the corrupted byte the stream neither ended nor delivered a complete terminal message for it (ending=" + model.ending + ")"}}
+			}
+			add("deadlock", blockedSignature(out.Blocked, "atp/client.go"), fmt.Sprintf("call %s is still blocked although a complete (garbled) terminal message for it was delivered and the decoder is in sync (reference decoder: %d items, terminal=%v, ending=%s): %s", unjustified, model.items, model.terminal, model.ending, strings.Join(det, "; ")))
+		} else if clientStuck {
 			add("deadlock", blockedSignature(out.Blocked, "atp/client.go"), "the stream has ended but the client is still blocked: "+strings.Join(det, "; "))
 		} else {
 			vs = append(vs, Violation{"HARNESS", "deadlock", blockedSignature(out.Blocked, "harness."), strings.Join(det, "; ")})
@@ -667,7 +761,7 @@ func JudgeClient(prop string, plan *ClientPlan, fault ClientFault, obs *ClientOb
 					}
 				}
 				if !ok {
-					add("fabricated", "success-without-intact-work-done", fmt.Sprintf("call %s returned output %q %s but no such work-done message for that run arrived intact (delivered for this run: %v)", call.RunID, got.Res.OutputID, short(gn), model.workDone[call.RunID]))
+					add("fabricated", "success-without-intact-work-done", fmt.Sprintf("call %s returned output %q %s but no such work-done message for that run arrived intact (delivered for this run: %v; reference decoder: %d items, ending=%s, all=%v)", call.RunID, got.Res.OutputID, short(gn), model.workDone[call.RunID], model.items, model.ending, short(model.workDone)))
 				}
 			}
 			if plan.Version == 1 {
@@ -765,13 +859,16 @@ func (e clientEngine) SubRuns(t *testing.T, batch string, baseTape func() *rt.Ta
 	out := []json.RawMessage{mustJSON(ClientFault{Base: runIdx, WriteAt: -1})}
 	clientLen := int64(len(obs.C2S.Record))
 	for _, k := range ks {
-		for _, kind := range []string{"eof", "ioerr", "garbage", "stall"} {
+		for _, kind := range []string{"eof", "ioerr", "garbage", "stall", "flip"} {
 			f := ClientFault{Base: runIdx, Kind: kind, At: k, JunkSeed: int(k) + int(runIdx), WriteAt: -1}
+			if kind == "flip" {
+				f.Mask = []int{0x20, 0x01, 0x80, 0x40}[k%4]
+			}
 			if kind == "stall" {
 				f.StallMs = []int{100, 6000}[k%2]
 			}
 			// the write side fails independently in a fraction of the points
-			if clientLen > 0 && (k+int64(len(kind)))%7 == 0 {
+			if kind != "flip" && clientLen > 0 && (k+int64(len(kind)))%7 == 0 {
 				f.WriteAt = (k * 31) % (clientLen + 1)
 			}
 			out = append(out, mustJSON(f))
@@ -801,7 +898,10 @@ func (e clientEngine) Run(t *testing.T, batch string, tape *rt.Tape, runIdx uint
 		if strings.HasPrefix(batch, "c08.") {
 			// a random fault, most of the time: the stream length is not known in advance, so draw
 			// from a range that covers typical transcripts (hello is a few KiB)
-			switch tape.Choose("cl.fault", 6) {
+			switch tape.Choose("cl.fault", 7) {
+			case 5:
+				fault.Kind = "flip"
+				fault.Mask = []int{0x20, 0x01, 0x80, 0x40}[tape.Choose("cl.mask", 4)]
 			case 1:
 				fault.Kind = "eof"
 			case 2:
@@ -820,7 +920,7 @@ func (e clientEngine) Run(t *testing.T, batch string, tape *rt.Tape, runIdx uint
 					fault.At = int64(2000 + tape.Choose("cl.faultat", 9000))
 				}
 			}
-			if tape.Choose("cl.wfault", 5) == 4 {
+			if fault.Kind != "flip" && tape.Choose("cl.wfault", 5) == 4 {
 				fault.WriteAt = int64(tape.Choose("cl.wfaultat", 600))
 			}
 		}
@@ -921,6 +1021,12 @@ func (e clientEngine) runOne(t *testing.T, batch string, plan *ClientPlan, fault
 		return rec
 	}
 	rec.Violations = JudgeClient(e.prop, plan, fault, obs, out)
+	if len(rec.Violations) == 1 && rec.Violations[0].Property == "EXCLUDED" {
+		rec.Outcome = "excluded"
+		rec.Reason = "premise not met: " + rec.Violations[0].Detail
+		rec.Violations = nil
+		return rec
+	}
 	if len(rec.Violations) > 0 {
 		rec.Outcome = "violation"
 	} else {
